@@ -376,6 +376,27 @@ def extras(numeric, seed):
         eff = max(abs(a - b) for p, q in zip(out[(False, True)], out[(False, False)]) for a, b in zip(p, q))
         numeric.append({"cfg": "post-timestep hook: %s/%s safe vs deferred" % (fam, coord), "fam": fam, "diff": d, "ref": None})
         numeric.append({"cfg": "post-timestep hook: %s/%s hook has no effect with deferred synchronisation" % (fam, coord), "fam": fam, "diff": 0.0 if eff > 1e-6 else 1.0, "ref": None})
+    # (c) MERCURIUS: asking for new critical radii in the middle of a run (recalculate_r_crit_this_timestep) while the synchronisation is
+    #     deferred synchronises first and goes back to heliocentric coordinates: same trajectory as in safe mode, also in a moving frame
+    outm = {}
+    for safe in (True, False):
+        cfg = dict(base, fam="mercurius", coord="-", safe=safe)
+        sim = build(cfg, random.Random(seed))
+        sim.dt = abs(sim.dt)
+        for p in sim.particles:
+            p.x += 3.0
+            p.vy += 0.4
+            p.vz -= 0.1
+        for k in range(30):
+            if k in (7, 19):
+                sim.ri_mercurius.recalculate_r_crit_this_timestep = 1
+            if k == 13:
+                sim.ri_mercurius.recalculate_coordinates_this_timestep = 1
+            sim.step()
+        sim.synchronize()
+        outm[safe] = [(p.x, p.y, p.z, p.vx, p.vy, p.vz) for p in sim.particles]
+    d = max(abs(a - b) for p, q in zip(outm[True], outm[False]) for a, b in zip(p, q))
+    numeric.append({"cfg": "mercurius: new critical radii / coordinates requested mid-run, safe vs deferred (moving frame)", "fam": "mercurius", "diff": d, "ref": None})
     out = {}
     for safe in (True, False):
         cfg = dict(base, fam="whfast", safe=safe)
